@@ -769,10 +769,13 @@ def run(ctx):
         "lattice, random bits, and the graph-semantics value +-1 ULP of every input-independent comparison operand) against PyRef / NpRef "
         "/ CRef; (b) Hypothesis-generated programs per target over the kinds, named constants and dtypes the target declares, with user "
         "reference names including colliding ones, debug 0/1. Non-trivial = program with a shared sub-expression whose result was "
-        "compared on at least one input / any shipped unit compared; distinct by case."
+        "compared on at least one input / any shipped unit compared / any template probe compared; distinct by case. (c) per-template probes: "
+        "every unary/binary kind a target declares x every dtype inlined into k(..)*y+z and k(x*y+z)*y-z (C++: one g++ run for all). (d) a "
+        "coverage-guided campaign (atheris/libFuzzer over the byte string Hypothesis decodes into a case of the python / numpy strategies, "
+        "same oracle), counted under fuzz/*."
     )
     ctx.assumptions = [
-        "C++ reference = numpy IEEE +,-,*,/,sqrt and ctypes calls into the libm the emitted code links against (instead of a separately compiled DAG interpreter); g++ -O1 -ffp-contract=off",
+        "C++ reference = numpy IEEE +,-,*,/,sqrt and ctypes calls into the libm the emitted code links against (instead of a separately compiled DAG interpreter); g++ -O1 -ffp-contract=off -frounding-math (no compile-time folding of inexact libm calls)",
         "NaN and signed-zero operands of sign/min/max are not compared (their treatment is target specific)",
         "tostring raising NotImplementedError or a missing-type KeyError means the target rejects the graph",
     ]
